@@ -314,7 +314,7 @@ class C09(Prop):
             for m, pth, cname, v in self.info["caps"]:
                 caps[cname] = v
                 caps[cname + "_" + m] = v
-            self.synth_specs = mg.synth_specs(self.assets, caps)
+            self.synth_specs = mg.synth_specs(self.assets, caps) + mg.extra_synth_specs(self.assets)
             self.synth_paths = mg.build_synth(self.synth_specs)
 
     # ---------------------------------------------------------------- explore cases
@@ -356,6 +356,12 @@ class C09(Prop):
                 layout[i]["described"] = rng.choice([ln + 1, ln + 4096, max(0, ln - 1), ln // 2, 0, ln * 2 + 7, 1 << 40])
             params["mode"] = rng.choice(["legacy", "legacy", "fast", "single_pass"])
         rules = self.gen_rules(rng, kind, size)
+        if "entry-extreme" in mkind or rng.chance(1, 6):
+            rules.append({"tag": "e0", "imports": [], "cond": "entrypoint >= 0 or entrypoint < 0"})
+            m = {"pe": "pe", "elf": "elf", "macho": "macho", "fat": "macho"}.get(kind)
+            if m:
+                rules.append({"tag": "e1", "imports": [m], "cond": "defined %s.entry_point%s" % (
+                    m, " or defined pe.entry_point_raw or defined pe.rva_to_offset(pe.entry_point)" if m == "pe" else "")})
         if size > 0 and rng.chance(1, 5):
             # adjacent regions incl. tiny ones, legacy mode (regions can be refetched), streaming functions over ranges
             # that cross several of them
@@ -403,7 +409,7 @@ class C09(Prop):
         # cap amplification: synthetic files around every reachable documented maximum
         for i, (name, _, m, cpath, req) in enumerate(self.synth_specs):
             pth = self.synth_paths[name]
-            kind = {"pe": "pe", "elf": "elf", "macho": "fat" if "fat" in name else "macho"}[m]
+            kind = {"pe": "pe", "dotnet": "pe", "elf": "elf", "macho": "fat" if "fat" in name else "macho"}[m]
             c = self.gen_explore(rng.fork("synth%d" % i), (pth, open(pth, "rb").read(), kind), True)
             c.update({"mutation": "synthetic", "what": [name]})
             cases.append(c)
@@ -445,6 +451,12 @@ class C09(Prop):
         targets += [(opt + 16, 4, "entry")] * 4 + [(opt + 36, 4, "file_alignment"), (nt + 4, 2, "machine"),
                                                    (nt + 22, 2, "characteristics")]
         edits, what = [], []
+        if rng.chance(1, 3):
+            # directed: the section the entry point falls in gets an extreme PointerToRawData / size (the sum
+            # pointer_to_raw_data + (entry - virtual_address) must be computed without overflow)
+            w, e = mg.entry_extremes(rng, b, "pe", None) or ([], [])
+            edits += e
+            what += w
         for _ in range(rng.choice([0, 1, 1, 2, 3, 5])):
             o, sz, n = rng.choice(targets)
             if n == "machine":
